@@ -66,6 +66,10 @@ type c06Instance struct {
 	views []avfs.VFS
 }
 
+// c06ViewDirs, when set by a dedicated program, gives the directory of the Sub view of each MemFS worker ("" or absent:
+// the root). A worker process runs one program at a time.
+var c06ViewDirs []string
+
 func c06NewInstance(fsType string, tree []fsx.Op, nw int) *c06Instance {
 	v, raw := newEmu(fsType)
 	in := &c06Instance{root: v, chk: raw.(verifChecker)}
@@ -75,7 +79,11 @@ func c06NewInstance(fsType string, tree []fsx.Op, nw int) *c06Instance {
 	}
 	for w := 0; w < nw; w++ {
 		if fsType == "MemFS" {
-			s, err := v.(*memfs.MemFS).Sub("/")
+			dir := "/"
+			if w < len(c06ViewDirs) && c06ViewDirs[w] != "" {
+				dir = c06ViewDirs[w]
+			}
+			s, err := v.(*memfs.MemFS).Sub(dir)
 			if err != nil {
 				s = v
 			}
@@ -519,6 +527,22 @@ func c06Dedicated(c *rt.Ctx, fsType string, trees [][]fsx.Op, idx *int, st *c06S
 			}
 		}
 	}
+	// a view rooted at a directory that the parent removes, moves or replaces while the view creates in its root: the
+	// root of a view is an ordinary directory (worker 0 acts through Sub("/w/d"), the others through the root)
+	if fsType == "MemFS" {
+		tree := []fsx.Op{{K: "Mkdir", P: "/w", Perm: 0o755}, {K: "Mkdir", P: "/w/d", Perm: 0o755}}
+		c06ViewDirs = []string{"/w/d"}
+		for _, create := range []fsx.Op{{K: "Mkdir", P: "/x", Perm: 0o755}, {K: "OpenWriteClose", P: "/x", Flag: syscall.O_WRONLY | syscall.O_CREAT | syscall.O_EXCL, Perm: 0o644}, {K: "Symlink", P: "zz", Q: "/x"}, {K: "MkdirAll", P: "/x/y", Perm: 0o755}} {
+			for _, other := range [][]fsx.Op{{{K: "Remove", P: "/w/d"}}, {{K: "RemoveAll", P: "/w/d"}}, {{K: "Rename", P: "/w/d", Q: "/w/e"}}, {{K: "Remove", P: "/w/d"}, {K: "Mkdir", P: "/w/d", Perm: 0o700}}} {
+				*idx++
+				if *idx%c.NShards != c.Shard {
+					continue
+				}
+				c06Program(c, fsType, 8, tree, [][]fsx.Op{{create, {K: "Lstat", P: "/x"}}, other}, 3, c.Pick(400, 3000), c.Pick(20, 60), st, r)
+			}
+		}
+		c06ViewDirs = nil
+	}
 	// two directory moves with disjoint pairs of locked directories, each moving a directory below the one the
 	// other moves: a cycle detached from the root if both get through (plus a third worker looking on)
 	{
@@ -546,7 +570,7 @@ func init() {
 		Shards: shards(14, 16),
 		Meta: func(tier string) rt.Meta {
 			return rt.Meta{Level: "exploration", MinEvals: 5000, MinDistinct: 50,
-				Rule:        "programs of 2 workers x 1 call (all ordered pairs of ~45 primitive mutating calls on 3 overlapping names, from 4 initial trees; quick: a seed-dependent sample), 2 workers x 2 calls and 3 workers x 1-2 calls (random), each worker on its own Sub view of one MemFS or sharing one OrefaFS. Every program is executed under the deterministic lock-hook scheduler: all schedules with <= 2 (quick) / 3 (thorough) preemptions up to a cap, then random schedules. Oracle per execution: the vector of results and the final snapshot must equal those of some sequential order of the same calls - consistent with program order and the observed real-time order - run on a fresh instance of the same implementation (memoised per outcome); the C05 public and internal invariants are evaluated at the end of every schedule; concurrent CreateTemp/MkdirTemp must hand out distinct names. Creations without a write access mode (O_CREATE|O_EXCL alone) are among the calls. Dedicated programs (shared with C07): queries overtaken by a move and a creation, directory moves whose locked directories form a cycle. Fixed three-worker programs for calls made of several walks against links/files/directories that come and go. Free-running: 320 000 (thorough 1.2 M) CreateTemp calls by eight goroutines in one directory - names pairwise distinct, one entry per call, every file still holding its creator's tag. Signature = fs | multiset of call kinds | initial tree | context switches; non-trivial = at least one context switch.",
+				Rule:        "programs of 2 workers x 1 call (all ordered pairs of ~45 primitive mutating calls on 3 overlapping names, from 4 initial trees; quick: a seed-dependent sample), 2 workers x 2 calls and 3 workers x 1-2 calls (random), each worker on its own Sub view of one MemFS or sharing one OrefaFS. Every program is executed under the deterministic lock-hook scheduler: all schedules with <= 2 (quick) / 3 (thorough) preemptions up to a cap, then random schedules. Oracle per execution: the vector of results and the final snapshot must equal those of some sequential order of the same calls - consistent with program order and the observed real-time order - run on a fresh instance of the same implementation (memoised per outcome); the C05 public and internal invariants are evaluated at the end of every schedule; concurrent CreateTemp/MkdirTemp must hand out distinct names. Creations without a write access mode (O_CREATE|O_EXCL alone) are among the calls. Dedicated programs (shared with C07): creations in the root of a Sub view whose directory the parent removes, moves or replaces meanwhile, queries overtaken by a move and a creation, directory moves whose locked directories form a cycle. Fixed three-worker programs for calls made of several walks against links/files/directories that come and go. Free-running: 320 000 (thorough 1.2 M) CreateTemp calls by eight goroutines in one directory - names pairwise distinct, one entry per call, every file still holding its creator's tag. Signature = fs | multiset of call kinds | initial tree | context switches; non-trivial = at least one context switch.",
 				Assumptions: []string{"composites (WriteFile, OpenFile+Write+Close) are not used as single calls: only primitives", "operands that are sequentially unsafe (root) are excluded", "deadlocks and panics seen here are counted and reported by C07"}}
 		},
 		CrashIsViolation: true,
